@@ -35,3 +35,70 @@ contract(SER, 'Series._ufunc_binary_operator', key='Series._ufunc_binary_operato
         f'implies(not ube("ieq", self._index, old(other)._index), result == ufe("series_unnamed", ufe("cellwise", operator.__name__, '
         f'ufe("aligned", self.values, self._index, {_U}), ufe("aligned", old(other).values, old(other)._index, {_U})), {_U}))',
     ])
+
+
+# ---- Frame op Frame / Frame op Series ------------------------------------------------------------------------------------------------
+FR = 'static_frame/core/frame.py'
+RECORDS['OpFrame'] = dict(_blocks='elem', _index='elem', _columns='elem', _name='elem', STATIC='bool')
+RECORDS['OpBlocks'] = dict(oid='elem')
+_UI = 'ufe("union", self._index, other._index)'
+_UC = 'ufe("union", self._columns, other._columns)'
+_FCLS = dict(params=dict(data='elem', index='elem', columns='elem'), order=['data'], kwonly=['index', 'columns', 'own_data', 'own_index', 'own_columns', 'name'],
+             defaults=dict(own_columns='False', name='None'), result='elem', ensures=['result == ufe("frame_unnamed", data, index, columns)'])
+
+
+def _reidx(who):
+    # ASSUMED: reindex gives the container holding, under every label pair of the new axes, the operand's cell for that pair or the missing marker;
+    # an axis that is not passed (None) is kept
+    return dict(params=dict(index='opt[elem]', columns='opt[elem]'), order=[], kwonly=['index', 'columns', 'own_index', 'own_columns'],
+                defaults=dict(index='None', columns='None', own_index='False', own_columns='False'), result='OpFrame',
+                ensures=[f'result._blocks == ufe("aligned2", {who}._blocks, {who}._index, {who}._columns, index, columns)'])
+
+
+contract(FR, 'Frame._ufunc_binary_operator', key='Frame._ufunc_binary_operator[Frame]',
+    props=['C06'],
+    params=dict(self='OpFrame', operator='Operator', other='OpFrame', axis='int'), order=['self'], kwonly=['operator', 'other', 'axis'], defaults=dict(axis='0'),
+    rec_classes={'OpFrame': ['Frame']},
+    requires=['operator.__name__ != "matmul"', 'operator.__name__ != "rmatmul"'],
+    result='elem',
+    calls={
+        'self._columns.union': dict(params=dict(o='elem'), order=['o'], result='elem', ensures=['result == ufe("union", self._columns, o)']),
+        'self._index.union': dict(params=dict(o='elem'), order=['o'], result='elem', ensures=['result == ufe("union", self._index, o)']),
+        'self.reindex': _reidx('self'),
+        'other.reindex': _reidx('other'),
+        'self_tb._ufunc_binary_operator': dict(params=dict(operator='Operator', other='elem'), order=[], kwonly=['operator', 'other'], result='elem',
+                                               ensures=['result == ufe("cellwise", operator.__name__, self_tb, other)']),
+        'self.__class__': _FCLS,
+    },
+    ensures=[
+        # both operands are aligned to the union of the row labels AND the union of the column labels; the result carries both unions
+        f'result == ufe("frame_unnamed", ufe("cellwise", operator.__name__, ufe("aligned2", self._blocks, self._index, self._columns, {_UI}, {_UC}), '
+        f'ufe("aligned2", other._blocks, other._index, other._columns, {_UI}, {_UC})), {_UI}, {_UC})',
+    ])
+
+_UCS = 'ufe("union", self._columns, other._index)'
+_UIS = 'ufe("union", self._index, other._index)'
+contract(FR, 'Frame._ufunc_binary_operator', key='Frame._ufunc_binary_operator[Series]',
+    props=['C06'],
+    params=dict(self='OpFrame', operator='Operator', other='OpSeries', axis='int'), order=['self'], kwonly=['operator', 'other', 'axis'], defaults=dict(axis='0'),
+    rec_classes={'OpFrame': ['Frame'], 'OpSeries': ['Series']},
+    requires=['operator.__name__ != "matmul"', 'operator.__name__ != "rmatmul"'],
+    result='elem',
+    raises={'AxisInvalid': 'axis != 0 and axis != 1'},
+    calls={
+        'self._columns.union': dict(params=dict(o='elem'), order=['o'], result='elem', ensures=['result == ufe("union", self._columns, o)']),
+        'self._index.union': dict(params=dict(o='elem'), order=['o'], result='elem', ensures=['result == ufe("union", self._index, o)']),
+        'self.reindex': _reidx('self'),
+        'other.reindex': dict(params=dict(index='elem'), order=['index'], kwonly=['own_index', 'check_equals'], result='OpSeries',
+                              ensures=['result.values == ufe("aligned", other.values, other._index, index)']),
+        'self_tb._ufunc_binary_operator': dict(params=dict(operator='Operator', other='elem', axis='int'), order=[], kwonly=['operator', 'other', 'axis'], result='elem',
+                                               ensures=['result == ufe("cellwise_ax", operator.__name__, self_tb, other, axis)']),
+        'self.__class__': _FCLS,
+    },
+    ensures=[
+        # axis 0: the Series labels pair with the COLUMN labels; axis 1: with the ROW labels; the paired axis becomes the union, the other is kept
+        f'implies(axis == 0, result == ufe("frame_unnamed", ufe("cellwise_ax", operator.__name__, ufe("aligned2", self._blocks, self._index, self._columns, None, {_UCS}), '
+        f'ufe("aligned", other.values, other._index, {_UCS}), 0), self._index, {_UCS}))',
+        f'implies(axis == 1, result == ufe("frame_unnamed", ufe("cellwise_ax", operator.__name__, ufe("aligned2", self._blocks, self._index, self._columns, {_UIS}, None), '
+        f'ufe("aligned", other.values, other._index, {_UIS}), 1), {_UIS}, self._columns))',
+    ])
